@@ -58,7 +58,7 @@ const char *rsv_class_names[RSV_NCLS] = {
     [K_NET_DELAYED] = "network_messages_delayed", [K_NET_OVERTAKES] = "network_stream_overtakes", [K_NET_TEST_SKIPPED] = "collective_completions_delayed",
     [K_NET_LEFTOVER] = "network_messages_never_received", [K_CROSS_RANK_REF] = "runs_with_several_ranks", [K_PRESET_TICK] = "preset_tick_chains",
     [K_PRESET_CASCADE] = "preset_cancelled_cascade_is_minimum",
-    [K_GVT_BOUND_BY_ANTI] = "gvt_values_equal_to_a_just_extracted_anti_message", [K_ENDLESS] = "endless_models", [K_STATELESS_LPS] = "lps_without_state_pointer"};
+    [K_GVT_BOUND_BY_ANTI] = "gvt_values_equal_to_a_just_extracted_anti_message", [K_ENDLESS] = "endless_models", [K_STATELESS_LPS] = "lps_without_state_pointer", [K_PRESET_STORM] = "preset_storm_at_timestamp_0"};
 
 struct rt_ctx RT;
 static char PROP[8] = "C01";
@@ -226,6 +226,28 @@ static void decode_spec(struct tape *t, struct gm_spec *g)
 		g->stop_at = t_choice(t, 4) == 0 ? 0 : 1 + t_choice(t, goal_base);
 		if(g->goal[g->stop_lp] && g->stop_at >= g->goal[g->stop_lp])
 			g->stop_at = g->goal[g->stop_lp] - (g->goal[g->stop_lp] > 1);
+	}
+	/* C07 "storm at timestamp 0" (no tape byte; one case in three): every LP but LP 0 has its first heartbeat at t = 0 and
+	 * a goal of 1, so it terminates at timestamp 0 and stays active long afterwards (post_goal); zero-delay children are
+	 * frequent, so events at t = 0 are executed speculatively, undone by stragglers that carry timestamp 0 too, and their
+	 * children cancelled by anti-messages at timestamp 0.  LP 0 has no heartbeat and a goal of 1 or 2: when the event that
+	 * completes it at t = 0 is one of those cancelled children, its predicate was true at timestamp 0 only speculatively,
+	 * while everybody else is done at 0 for good */
+	if(c07 && (g->seed % 3 == 2 || getenv("RSV_FORCE_STORM")) && g->n_lps >= 3) {
+		g->victim_nohb = 2;
+		g->post_goal = 60;
+		g->dest_mode = 0;
+		g->init_zero = 1;
+		g->init_sends = (uint8_t)((g->seed >> 5) & 1);
+		g->zero_delay = 120;
+		if(g->send_prob < 110)
+			g->send_prob = 150;
+		g->stop_lp = -1;
+		for(unsigned i = 0; i < g->n_lps; i++) {
+			g->goal[i] = 1;
+			g->t0_zero[i] = 1;
+		}
+		g->goal[0] = (uint16_t)(1 + ((g->seed >> 9) & 1));
 	}
 	/* "router" LPs that never call SetState (no tape byte, derived from the model seed; only for properties without saved
 	 * whole-runtime tapes): the library generator is their only rollbackable state */
@@ -453,6 +475,7 @@ int rsv_case(const uint8_t *tape, size_t len, struct rsv_result *res)
 	res->cls[c->serial ? K_RUNS_SERIAL : c->mode == RSV_MODE_DET ? K_RUNS_DET : K_RUNS_FREE] = 1;
 	res->cls[K_THREADS_GT_LPS] = !c->serial && c->n_threads * c->ranks > g->n_lps;
 	res->cls[K_ENDLESS] = g->endless;
+	res->cls[K_PRESET_STORM] = g->init_zero && g->victim_nohb == 2;
 	for(unsigned i = 0; i < g->n_lps; i++)
 		res->cls[K_STATELESS_LPS] += g->stateless[i];
 	res->cls[K_PRESET_TICK] = RT.preset == 1;
